@@ -255,6 +255,71 @@ extern "C" void h_ovl() {
 #endif
 
 
+#if C19_PART == 0 || C19_PART == 2
+// ================================================================= the same with allocation failures: a creation may meet std::bad_alloc
+// Program as in h_ovl; every create carries a flag: the first operator new made during that creation throws std::bad_alloc (vf_new_fail_at). A failed
+// creation creates no frame and leaves no block behind; the frames that are live keep their memory to themselves, before and after.
+extern "C" void h_ovl_oom() {
+    const int nops = vf_choice(7);
+    Slot slot[6];                // one per attempt
+    int idx[3]; int nattempt = 0;
+    int ncreated = 0;
+    vf_warmup();
+    const long base = vf_live_allocs();
+    {
+        S st;
+        for (int k = 0; k < nops; ++k) {
+            const int op = vf_choice(5); // 0 create small, 1 create large, 2.. complete the (op-2)-th created frame
+            if (op < 2) {
+                const int fail = vf_choice(2);
+                VF_ASSERT(ncreated < 3, "VF_SPEC at most three frames");
+                Slot &s = slot[nattempt]; idx[ncreated] = nattempt; ++nattempt;
+                s.size = op; s.seed = nondet_int();
+                s.open = s.gate.get_promise();
+                const int before = live_blocks();
+                bool threw = false;
+                vf_new_fail_at(fail);
+                try {
+                    Co co = make(st, s);
+                    vf_new_fail_at(0);
+                    VF_ASSERT(live_blocks() == before + 1, "C19 creating a coroutine obtains exactly one block from its storage");
+                    s.started = 1;
+                    s.res << [&] { return co.start(); };
+                } catch (...) { threw = true; }
+                vf_new_fail_at(0);
+                if (threw) {
+                    VF_ASSERT(live_blocks() == before, "C19 a creation that fails with bad_alloc leaves no block behind");
+                    s.open(drop);
+                    vf_out(-1);
+                } else {
+                    ++ncreated;
+                    vf_out(1);
+                }
+            } else {
+                const int i = op - 2;
+                if (i >= ncreated || slot[idx[i]].finished) continue;          // (the frame this step refers to was never created: its creation failed)
+                const int before = live_blocks();
+                Slot &s = slot[idx[i]];
+                s.open();
+                s.finished = 1;
+                VF_ASSERT(live_blocks() == before - 1, "C19 the block is released when the frame is destroyed");
+                VF_ASSERT(s.ok == 1 && s.res.value() == s.seed, "C19 the frame's locals survive its suspension unmodified (canary)");
+            }
+        }
+        for (int i = 0; i < ncreated; ++i) if (!slot[idx[i]].finished) {      // wind down
+            Slot &s = slot[idx[i]];
+            s.open();
+            VF_ASSERT(s.ok == 1 && s.res.value() == s.seed, "C19 the frame's locals survive its suspension unmodified (canary)");
+        }
+        VF_ASSERT(live_blocks() == 0, "C19 the block is released when the frame is destroyed");
+        for (int i = 0; i < ncreated; ++i) vf_out(slot[idx[i]].ok);
+    }
+    VF_ASSERT(vf_live_allocs() == base, "C19 all heap memory of the policy (blocks, fallbacks) is released, none twice");
+    vf_choice_end();
+    vf_witness();
+}
+#endif
+
 #if C19_PART == 3
 // ================================================================= stack_storage: two activations prepared before either coroutine exists
 // The documented usage is: construct the storage from the shared state, alloca(size_t(storage)) bytes, create the coroutine. When two
